@@ -236,6 +236,23 @@ func runC19(c *ctx) {
 		c.Class("hundreds-of-messages")
 		c19Eval(c, c19Case{Parts: parts, Seps: seps})
 	}
+	// every message uses a name and the same name with digits appended (q, q0..q12, q100): names are scoped by
+	// message, not by any spelling that glues a message number to them
+	for _, n := range []int{12, 25, 40, 120} {
+		var parts, seps []string
+		for i := 0; i < n; i++ {
+			var sb strings.Builder
+			fmt.Fprintf(&sb, "S1F%d H->E <L <U1 q> <I2 q100> <A q_>", 2*(i%100)+1)
+			for d := 0; d <= 12; d++ {
+				fmt.Fprintf(&sb, " <U2 q%d>", d)
+			}
+			sb.WriteString(" lot lot1 lot11 lot2> .")
+			parts = append(parts, sb.String())
+			seps = append(seps, []string{"\n", " ", ""}[i%3])
+		}
+		c.Class("digit-suffixed-names-in-every-message")
+		c19Eval(c, c19Case{Parts: parts, Seps: seps})
+	}
 	// a message with exactly n variables, then messages that reuse each of its names in every kind of place
 	for n := 1; n <= 20; n++ {
 		var sb strings.Builder
@@ -268,7 +285,7 @@ func runC19(c *ctx) {
 			}
 		}
 	}
-	c.Required = []string{"edge-spellings", "n-variables-then-reuse", "parts=2", "parts=3", "parts=4", "shared-variable-names", "ellipses-in-several-parts", "with-warnings", "header-kind-pairs", "same-literal-other-type", "hundreds-of-messages", "parts=257", "parts=300"}
+	c.Required = []string{"edge-spellings", "n-variables-then-reuse", "parts=2", "parts=3", "parts=4", "shared-variable-names", "ellipses-in-several-parts", "with-warnings", "header-kind-pairs", "same-literal-other-type", "hundreds-of-messages", "parts=257", "parts=300", "parts=40", "parts=120", "digit-suffixed-names-in-every-message"}
 }
 
 func replayC19(c *ctx, raw json.RawMessage) {
